@@ -6,7 +6,7 @@ import glob, json, os, re, shutil, subprocess, sys, time
 
 WT = "/tmp/mut/HEAD"
 CHECKS = {  # property -> checks to run (its own first)
- "C01": ["C01", "C04", "C10"], "C02": ["C02"], "C03": ["C03"], "C04": ["C04"], "C05": ["C05"], "C06": ["C06"], "C07": ["C07"], "C08": ["C08", "C11", "C04", "C19"],
+ "C01": ["C01", "C04", "C10"], "C02": ["C02", "C17"], "C03": ["C03"], "C04": ["C04"], "C05": ["C05"], "C06": ["C06"], "C07": ["C07"], "C08": ["C08", "C11", "C04", "C19"],
  "C09": ["C09"], "C10": ["C10", "C03", "C17", "C19"], "C11": ["C11"], "C12": ["C12"], "C13": ["C13"], "C14": ["C14"], "C15": ["C15"], "C16": ["C16"],
  "C17": ["C17", "C19", "C02"], "C18": ["C18", "C10", "C03"], "C19": ["C19", "C03"], "C20": ["C20", "C09"],
 }
@@ -50,7 +50,7 @@ def main():
             dst = os.path.join(WT, rel)
             os.makedirs(os.path.dirname(dst), exist_ok=True)
             shutil.copy(srcp, dst); placed.append(dst)
-        demo = meta["demo_cmd"].replace("/tmp/mut/%s" % dn, WT)
+        demo = re.sub(r"\s*\(fallback:.*\)\s*$", "", meta["demo_cmd"]).replace("/tmp/mut/%s" % dn, WT)
         demo = re.sub(r"cp\s+\S*MUTANT\S*\s+\S+\s*&&", "", demo)  # the demo files are already in place
         rc0, out0 = sh(demo, WT)
         res["demo_without_patch_rc"] = rc0
